@@ -240,6 +240,14 @@ def exec_c06(cfg, devs):
     p = Partial()
     dev = _mk_device()
     menu = ('once', 'dup', 'delay1.05', 'drop')
+    vsched.clear_traced_functions()
+    if cfg.get('lines'):
+        # line-level scheduling points in the memory subsystem (request bookkeeping shared by user threads and the
+        # dispatcher): every private function of the Memory class and of the module's private request classes
+        import cflib.crazyflie.mem as mm
+        vsched.trace_functions([f for f in cfh.functions_of(mm.Memory, module=mm, skip=('__init__',))
+                                if f.__name__.startswith('_') or f.__name__ in ('write', 'read', 'start', 'resend',
+                                                                                'add_data', 'write_done')])
     ex = cfh.Exec(devs, dev, time_limit=60.0, reply_menu=menu, needs_resending=True, send_fault=bool(cfg.get('send_fault')),
                   policy=cfg.get('policy'))
     # only memory replies are faulted (the connect handshake is C02/C03's business)
@@ -566,6 +574,16 @@ def configs(quick):
     return out
 
 
+def _focus_filter(devs, i, alt, label):
+    if not devs:
+        return label.startswith('reply:p4') or label in ('mem.err', 'env.linkfault', 'user2.op')
+    if len(devs) == 1 and devs[0][0] + 150 < i:
+        return False
+    if len(devs) == 2 and (devs[1][0] + 25 < i or devs[1][0] > devs[0][0] + 60):
+        return False
+    return label.startswith('L:') or label in ('lock.release', 'link.rx')
+
+
 def run(ck):
     cfh.setup()
     ck.rule = ('(B also: 5 sequences whose last operation is issued by a second user thread at any scheduling point) A: 3 memory ids x 7 start addresses x (read lengths 0..61 + write lengths 0..76, with and without '
@@ -580,6 +598,18 @@ def run(ck):
     cs = configs(ck.quick)
     r = explore(ck, exec_c06, cs, 1)
     ck.note('histories_one_deviation', r)
+    # focused three-deviation search: one environment event (reply duplicated / delayed / dropped, error status, link
+    # loss) and two thread switches at the lines of the memory subsystem, at lock hand-overs or at packet arrivals
+    focus = [{'name': 'focus3:w0@0+26,w0@40+26', 'ops': (('w', 0, 0, 26), ('w', 0, 40, 26)), 'fault': True, 'lines': True,
+              'second_user': 1.3}]
+    if not ck.quick:
+        focus += [{'name': 'focus3:w0@0+26,r0@0+26', 'ops': (('w', 0, 0, 26), ('r', 0, 0, 26)), 'fault': True, 'lines': True,
+                   'second_user': 1.3},
+                  {'name': 'focus3:r0@0+21,r0@40+21', 'ops': (('r', 0, 0, 21), ('r', 0, 40, 21)), 'fault': True, 'lines': True,
+                   'second_user': 1.3}]
+    # quick: the environment event plus one switch (within 150 points); thorough: plus a second switch close to the first
+    r3 = explore(ck, exec_c06, focus, 2 if ck.quick else 3, child_filter=_focus_filter, max_execs=3000000)
+    ck.note('focused_deviations', r3)
     if not ck.quick:
         deep = [c for c in cs if len(c['ops']) >= 2][:6] + [c for c in cs if len(c['ops']) == 1 and c['ops'][0][3] in (21, 26)]
         r2 = explore(ck, exec_c06, [dict(c, name=c['name'] + ':2dev', settle=4.6) for c in deep], 2, max_execs=2000000)
